@@ -37,6 +37,10 @@ structure of the model (no enumeration needed: `Entry × Oracle` is finite up to
     (+ witnesses `rename_over_deletes_unseen_edit_when_unstamped`, `rename_over_deletes_edit_of_ignored_entry`,
     `restricted_conflict_refresh_is_blind`), `handle_rename_refines_table`, `split_defer_reads_defer_side_only`,
     `change_fill_needs_stamp`, `pre_sync_refresh_covers_stamps`
+16. part 5, ROOT CONFINEMENT of `sync` (the new first step `_unlink_peer_that_left_sync`): `sync_of_unlinks`, `sync_of_not_unlinks`
+    (section 0), `left_sync_peer_never_written`, `left_sync_peer_never_written_step`, `unlink_only_if_left_and_pending`
+    (+ witness `pre_fix_sync_writes_peer_that_left`: the decision function before the fix, kept as `syncPre`, uploads by id to the
+    object that left the root)
 -/
 namespace CS.Engine
 open CS.Hints (Ex OT Ign)
@@ -258,12 +262,39 @@ theorem corrupt_gone_finishes_without_write (o : Oracle) (e : Entry) (side : Sd)
     dispatch o e side fx = .brk true (finished e side) (fx ++ [.notifyCorrupt side, .fin side]) := by
   simp [dispatch, h]
 
+/-! ## 0. the first step of `sync`: a peer that left the sync root is unlinked (manager.py 372-402) -/
+
+theorem sync_of_not_unlinks (o : Oracle) (e : Entry) (h : unlinks o e = false) : sync o e = syncPre o e := by
+  unfold sync; simp [h]
+
+/-- when the first step fires, `sync` does nothing but `state.split(sync)` and returns False -/
+theorem sync_of_unlinks (o : Oracle) (e : Entry) (h : unlinks o e = true) :
+    (sync o e).effs = [.split] ∧ (sync o e).done = .ok false ∧ splitEntry e = .ok (sync o e).ent := by
+  have hl : e.l.oid = true := by
+    unfold unlinks at h
+    simp only [Bool.and_eq_true] at h
+    exact h.1.1.1
+  unfold sync
+  simp only [h, if_true]
+  unfold splitEntry
+  simp [hl]
+
+/-- the first step needs a side that needs sync -/
+theorem unlinks_false_of_idle (o : Oracle) (e : Entry) (hn : ∀ x, (e.get x).needsSync = false) : unlinks o e = false := by
+  have h1 := hn .loc
+  have h2 := hn .rem
+  simp only [Entry.get] at h1 h2
+  unfold unlinks
+  simp [h1, h2]
+
 /-! ## 8. hash conflicts first -/
 
-/-- HASH CONFLICT GOES TO THE RESOLVER FIRST (manager.py 377-380): nothing else is looked at, the entry is left as it is -/
-theorem hash_conflict_goes_to_resolver_first (o : Oracle) (e : Entry) (h : hashConflict e = true) :
+/-- HASH CONFLICT GOES TO THE RESOLVER FIRST (manager.py 404-407), unless a peer that left the sync root is unlinked first
+    (`sync_of_unlinks`): nothing else is looked at, the entry is left as it is -/
+theorem hash_conflict_goes_to_resolver_first (o : Oracle) (e : Entry) (h : hashConflict e = true) (hu : unlinks o e = false) :
     (sync o e).effs = [.hashConflict] ∧ (sync o e).ent = e := by
-  unfold sync
+  rw [sync_of_not_unlinks o e hu]
+  unfold syncPre
   simp [h]
   split <;> simp
 
@@ -364,7 +395,8 @@ theorem sync_idle (o : Oracle) (e : Entry) (hn : ∀ x, (e.get x).needsSync = fa
     split
     · cases x <;> cases s1 <;> simp_all [Sd.other, When.flag]
     · cases x <;> cases s1 <;> simp_all [Sd.other]
-  unfold sync
+  rw [sync_of_not_unlinks o e (unlinks_false_of_idle o e hn)]
+  unfold syncPre
   rw [if_neg (by simp [hc])]
   dsimp only
   generalize firstSide e = s1
@@ -485,10 +517,11 @@ theorem syncSide_not_done (o : Oracle) (e : Entry) (side : Sd) (fx' : List Eff) 
     | exact dispatch_not_done o _ side _ _ _ h
 
 /-- TOTALITY OF ONE ENGINE STEP (manager.py 180-203, 372-464): `_sync_one_entry` either reports progress, or the entry was
-    punted (`sync.punt()`), or the parent-conflict REQUEUE was taken, or an exception escaped — and then the entry was punted
-    before backing off.  There is no silent "nothing happened" path. -/
+    punted (`sync.punt()`), or the parent-conflict REQUEUE was taken, or the entry was split because a peer left the sync root, or an
+    exception escaped — and then the entry was punted before backing off.  There is no silent "nothing happened" path. -/
 theorem sync_one_total (o : Oracle) (e : Entry) :
-    (syncOne o e).1 = .done true ∨ Eff.punt ∈ (syncOne o e).2.1 ∨ ((syncOne o e).1 = .done false ∧ o.parentConfl = true) := by
+    (syncOne o e).1 = .done true ∨ Eff.punt ∈ (syncOne o e).2.1 ∨
+      ((syncOne o e).1 = .done false ∧ (o.parentConfl = true ∨ Eff.split ∈ (syncOne o e).2.1)) := by
   unfold syncOne
   rcases hp : preSync o e with ⟨b, fx, e1⟩
   cases b
@@ -500,8 +533,14 @@ theorem sync_one_total (o : Oracle) (e : Entry) :
       cases b
       · simp only []
         -- something_got_done = False: find the break
-        have : Eff.punt ∈ fx2 ∨ o.parentConfl = true := by
-          unfold sync at hs
+        have : Eff.punt ∈ fx2 ∨ o.parentConfl = true ∨ Eff.split ∈ fx2 := by
+          by_cases hu : unlinks o e1 = true
+          · have := (sync_of_unlinks o e1 hu).1
+            rw [hs] at this
+            right; right; simp at this; simp [this]
+          rw [sync_of_not_unlinks o e1 (by simpa using hu)] at hs
+          refine (?_ : Eff.punt ∈ fx2 ∨ o.parentConfl = true).elim Or.inl (fun h => Or.inr (Or.inl h))
+          unfold syncPre at hs
           split at hs
           · split at hs <;> simp at hs
           · simp only [] at hs
@@ -522,8 +561,9 @@ theorem sync_one_total (o : Oracle) (e : Entry) :
                 · right; exact h
               · simp at hs
               · simp at hs
-        rcases this with h | h
+        rcases this with h | h | h
         · right; left; simp [h]
+        · right; right; simp [h]
         · right; right; simp [h]
       · left; rfl
   · left; rfl
@@ -804,7 +844,10 @@ theorem sync_tombstone_not_resurrected (o : Oracle) (e : Entry) (c : Sd) (ht : (
     (hd : (e.get c).otype ≠ .dir) (hn : isCreation e c.other = false) (hc : hashConflict e = false) :
     (sync o e).effs.all (fun f => !f.isTransfer) = true := by
   have h : Tomb e c := ⟨ht, hd, hn⟩
-  unfold sync
+  by_cases hu : unlinks o e = true
+  · rw [(sync_of_unlinks o e hu).1]; decide
+  rw [sync_of_not_unlinks o e (by simpa using hu)]
+  unfold syncPre
   rw [if_neg (by simp [hc])]
   dsimp only
   generalize firstSide e = s1
@@ -1878,3 +1921,76 @@ theorem pre_sync_refresh_covers_stamps (w : World) (r : RE) (t : Sd) : max r.chL
   full_refresh_marks_cover_stamps w r false t
 
 end CS.Engine.Refresh
+
+
+/-! ## 16. part 5 — root confinement: a peer that left the sync root is never written by id -/
+
+namespace CS.Engine
+open CS.Hints (Ex OT Ign)
+
+/-- CONFINEMENT DECISION (manager.py 372-402).  Side `s`'s object is live (id, path, EXISTS) and its path no longer translates to the
+    other side; the other side has an id and needs sync; the entry is not discarded.  Then `sync` — whatever the providers, the
+    other entries and the transfer leaves answer — chooses NO provider action at all (no upload, rename, delete, conflict-rename,
+    create, mkdir of either side's object): it splits the entry and returns False.  The entry afterwards is what `state.split`
+    leaves (`splitEntry`): two unrelated objects. -/
+theorem left_sync_peer_never_written (o : Oracle) (e : Entry) (s : Sd) (hl : leftSync o e s = true)
+    (hn : (e.get s.other).needsSync = true) (hid : (e.get s.other).oid = true) (hd : e.ign.isDiscarded = false) :
+    (sync o e).effs = [.split] ∧ (sync o e).done = .ok false ∧ splitEntry e = .ok (sync o e).ent ∧
+      (sync o e).effs.all (fun f => !f.isWrite) = true := by
+  have hs : (e.get s).oid = true := by
+    unfold leftSync at hl
+    simp only [Bool.and_eq_true] at hl
+    exact hl.1.1.1
+  have hu : unlinks o e = true := by
+    unfold unlinks
+    cases s
+    · simp only [Sd.other, Entry.get] at hn hid hs
+      simp [hd, hs, hid, hl, hn]
+    · simp only [Sd.other, Entry.get] at hn hid hs
+      simp [hd, hs, hid, hl, hn]
+  obtain ⟨h1, h2, h3⟩ := sync_of_unlinks o e hu
+  refine ⟨h1, h2, h3, ?_⟩
+  rw [h1]; decide
+
+/-- the same for one engine step (`_sync_one_entry`): the refresh, the split, nothing else; the step reports "nothing done" so the
+    two entries are picked up again -/
+theorem left_sync_peer_never_written_step (o : Oracle) (e : Entry) (s : Sd) (hl : leftSync o e s = true)
+    (hn : (e.get s.other).needsSync = true) (hid : (e.get s.other).oid = true) (hd : e.ign.isDiscarded = false) :
+    (syncOne o e).2.1 = [.getLatest, .split] ∧ (syncOne o e).1 = .done false := by
+  obtain ⟨h1, h2, -, -⟩ := left_sync_peer_never_written o e s hl hn hid hd
+  have hp : preSync o e = (false, [.getLatest], e) := by
+    unfold preSync checkRevivify
+    simp [hd]
+  unfold syncOne
+  rw [hp]
+  simp only [h2, h1, List.singleton_append]
+  exact ⟨trivial, trivial⟩
+
+/-- … and the first step fires ONLY then: a split without a side that left the root while the other one has a change pending does
+    not come from it -/
+theorem unlink_only_if_left_and_pending (o : Oracle) (e : Entry) (h : unlinks o e = true) :
+    e.ign.isDiscarded = false ∧ ∃ s, leftSync o e s = true ∧ (e.get s.other).needsSync = true ∧ (e.get s.other).oid = true := by
+  unfold unlinks at h
+  simp only [Bool.and_eq_true, Bool.or_eq_true, Bool.not_eq_true'] at h
+  obtain ⟨⟨⟨h1, h2⟩, h3⟩, h4⟩ := h
+  refine ⟨h3, ?_⟩
+  rcases h4 with ⟨a, b⟩ | ⟨a, b⟩
+  · exact ⟨.rem, a, b, h1⟩
+  · exact ⟨.loc, a, b, h2⟩
+
+/-- the entry of the C12 defect: LOCAL was edited (hash differs, flagged); REMOTE is alive but was moved out of the root — its new
+    path is known, does not translate (`trL = none`) -/
+def wLeftEntry : Entry :=
+  { l := { wSynced with h := .ne, changed := true }, r := { wSynced with p := .ne }, lLeR := true, ign := .no, prio := 0 }
+
+def wLeftOracle : Oracle := { Oracle.quiet with trL := .none, trR := .path }
+
+/-- WITNESS of the defect the fix is for: the decision function BEFORE the fix (`syncPre`) downloads LOCAL and UPLOADS it by id
+    into the REMOTE object that left the sync root; the fixed `sync` splits instead -/
+theorem pre_fix_sync_writes_peer_that_left :
+    leftSync wLeftOracle wLeftEntry .rem = true ∧ wLeftEntry.l.needsSync = true ∧
+    Eff.upload .rem ∈ (syncPre wLeftOracle wLeftEntry).effs ∧
+    (sync wLeftOracle wLeftEntry).effs = [.split] := by
+  decide
+
+end CS.Engine
